@@ -45,14 +45,15 @@ ASSUMPTIONS = [
 ]
 GRIDS = ["linear", "log", "irregular"]
 ACCURACIES = ["low", "med", "high", "xhigh"]
-SIG2D = ["zero", "tiny", "par>perp", "perp>par", "wide", "beyond-q", "par-only", "perp-only", "mixed"]
+SIG2D = ["zero", "tiny", "par>perp", "perp>par", "wide", "beyond-q", "edge-at-origin", "par-only", "perp-only",
+         "mixed"]
 BOUNDS = {
     "quick": {"n": [1, 2, 3, 10, 100], "first_q": "1e-4, 1e-2 (x seed factor)", "span": H.SPAN,
               "grids": GRIDS, "pinhole_sigma": H.PINHOLE_WIDTHS, "slit_shapes": H.SLIT_SHAPES,
               "slit_magnitudes": H.SLIT_MAGS, "slit_vector": ["scalar", "per-point"],
               "q_calc": ["default", "user"], "accuracy": ACCURACIES, "sigma2d": SIG2D,
               "models": ["sphere", "cylinder"]},
-    "thorough": {"n": [1, 2, 3, 10, 100, 500], "first_q": "1e-4, 1e-2 (x seed factor)", "span": H.SPAN,
+    "thorough": {"n": [1, 2, 3, 4, 10, 30, 100, 500], "first_q": "1e-4, 1e-2 (x seed factor)", "span": H.SPAN,
                  "grids": GRIDS, "pinhole_sigma": H.PINHOLE_WIDTHS, "slit_shapes": H.SLIT_SHAPES,
                  "slit_magnitudes": H.SLIT_MAGS, "slit_vector": ["scalar", "per-point"],
                  "q_calc": ["default", "user"], "accuracy": ACCURACIES, "sigma2d": SIG2D,
@@ -332,6 +333,8 @@ def _sig2d(name, qr):
         return 0.5 * qr, 0.2 * qr
     if name == "beyond-q":
         return 1.2 * qr, 0.3 * qr
+    if name == "edge-at-origin":       # the outermost ring of the 'low' accuracy cloud (2.5 sigma) lands on q = 0
+        return qr / 2.5, 0.1 * qr
     if name == "par-only":
         return 0.1 * qr, z.copy()
     if name == "perp-only":
